@@ -338,6 +338,22 @@ func init() {
 				}
 				scs = append(scs, sc)
 			}
+			// (11) a single request sent with Send() and answered under a tag that does not mirror the request's (a general
+			// error, another item): the first item of the reply is what Send returns
+			for j, rt := range []rscp.Tag{rscp.RSCP_GENERAL_ERROR, rscp.EMS_POWER_PV, 0x7f800001} {
+				sc := &scenario{name: fmt.Sprintf("send-answered-under-another-tag-%d", j), fails: map[int]bool{}}
+				for k := 0; k < 3; k++ {
+					c := healthy(k)
+					c.kind = "s"
+					c.reqs = c.reqs[:1]
+					c.user = frameReply(replyFor(c.reqs, k)[:1])
+					if k == 1 {
+						c.user = frameReply([]rscp.Message{{Tag: rt, DataType: rscp.CString, Value: fmt.Sprintf("answer-%d", j)}})
+					}
+					sc.calls = append(sc.calls, c)
+				}
+				scs = append(scs, sc)
+			}
 			// (5) a reply damaged in transit once (one bit of the frame's time stamp, checksum untouched): the call fails
 			// with a checksum error, its request reached the device once, the next call works on a new connection
 			for j := 0; j < 2; j++ {
